@@ -662,3 +662,85 @@ Proof.
       * destruct (entry_ok_sound _ _ _ H1) as [A _]. split; [exact A|]. intros i' s' Hi. discriminate.
     + cbn in Hc, Ho. now apply (Hall n).
 Qed.
+
+Local Open Scope string_scope.
+(* ---------------------------------------------------------------------------------------------- *)
+(* String-valued settings *)
+
+Lemma string_roundtrip : forall r s, s <> EmptyString -> load_string r (Some s) = Some s.
+Proof.
+  intros r s Hs. unfold load_string. cbn [written_text].
+  destruct (String.eqb s "") eqn:E; [apply String.eqb_eq in E; contradiction|reflexivity].
+Qed.
+
+Lemma load_string_none_iff : forall r w,
+  load_string r w = None <-> (r = Required /\ written_text w = EmptyString).
+Proof.
+  intros r w. unfold load_string. destruct (String.eqb (written_text w) "") eqn:E.
+  - apply String.eqb_eq in E. destruct r; split; intro H; try discriminate; auto;
+      destruct H as [H _]; discriminate.
+  - apply String.eqb_neq in E. split; [discriminate|]. intros [_ H]. contradiction.
+Qed.
+
+Lemma str_ok_load : forall r w s, load_string r w = Some s -> str_ok r w s = true.
+Proof.
+  intros r w s H. unfold load_string in H. unfold str_ok.
+  destruct (String.eqb (written_text w) "") eqn:E.
+  - destruct r; inversion H; subst; cbn; rewrite ?String.eqb_refl; auto using orb_true_r.
+  - inversion H; subst. apply String.eqb_refl.
+Qed.
+
+Lemma strs_ok_list_model : forall ws, existsb missing_required ws = false ->
+  strs_ok_list ws (map (fun rw : str_rule * option string =>
+                          match load_string (fst rw) (snd rw) with Some s => s | None => "" end) ws) = true.
+Proof.
+  induction ws as [|[r w] ws IH]; intro H; [reflexivity|].
+  cbn [existsb] in H. apply orb_false_elim in H as [H1 H2].
+  cbn [map strs_ok_list fst snd]. rewrite IH by assumption. rewrite andb_true_r.
+  unfold missing_required in H1. cbn [fst snd] in H1.
+  destruct (load_string r w) eqn:E; [|discriminate]. now apply str_ok_load.
+Qed.
+
+Lemma strs_ok_model : forall ws, strs_ok ws (load_strings ws) = true.
+Proof.
+  intro ws. unfold load_strings. destruct (existsb missing_required ws) eqn:E; [reflexivity|].
+  cbn [strs_ok]. now apply strs_ok_list_model.
+Qed.
+
+(* every non-empty written text of an accepted configuration is loaded unchanged *)
+Lemma strs_roundtrip : forall ws gs, load_strings ws = Some gs ->
+  Forall2 (fun (rw : str_rule * option string) g =>
+             forall s, snd rw = Some s -> s <> EmptyString -> g = s) ws gs.
+Proof.
+  intros ws gs H. unfold load_strings in H. destruct (existsb missing_required ws); [discriminate|].
+  inversion H; subst. clear H. induction ws as [|[r w] ws IH]; constructor; [|exact IH].
+  cbn [fst snd]. intros s -> Hs. now rewrite string_roundtrip.
+Qed.
+
+Lemma strs_ok_sound : forall ws gs, strs_ok ws (Some gs) = true ->
+  Forall2 (fun (rw : str_rule * option string) g =>
+             forall s, snd rw = Some s -> s <> EmptyString -> g = s) ws gs.
+Proof.
+  cbn [strs_ok]. induction ws as [|[r w] ws IH]; intros [|g gs] H; try discriminate; constructor.
+  - cbn [strs_ok_list] in H. apply andb_prop in H as [H _]. cbn [snd]. intros s -> Hs.
+    unfold str_ok in H. cbn [written_text] in H.
+    destruct (String.eqb s "") eqn:E; [apply String.eqb_eq in E; contradiction|].
+    now apply String.eqb_eq in H.
+  - cbn [strs_ok_list] in H. apply andb_prop in H as [_ H]. now apply IH.
+Qed.
+
+Lemma parse_level_value : forall s l, parse_level s = Some l -> l = s /\ In s level_names.
+Proof.
+  intros s l H. unfold parse_level in H. destruct (existsb (String.eqb s) level_names) eqn:E; [|discriminate].
+  inversion H; subst. split; [reflexivity|]. apply existsb_exists in E as [x [Hin Hx]].
+  apply String.eqb_eq in Hx. now subst.
+Qed.
+
+Lemma level_ok_model : forall s, level_ok s (parse_level s) = true.
+Proof.
+  intro s. destruct (parse_level s) eqn:E; [|reflexivity]. apply parse_level_value in E as [-> _].
+  apply String.eqb_refl.
+Qed.
+
+Lemma level_ok_sound : forall s l, level_ok s (Some l) = true -> l = s.
+Proof. intros s l H. now apply String.eqb_eq in H. Qed.
